@@ -8,7 +8,7 @@ from ..model import M, NONE, S, plen
 LEVEL = "model_checking"
 RULE = ("Construct records: every spelling of (periodic, boundary, fill_value) for a 2-axis grid (bool / every list / "
         "total mapping; none / scalar / every partial or total mapping in both key orders); Pad records: random "
-        "constructor x call spellings x asymmetric widths 0..n x shapes and dim orders on 1-3 axis grids; "
+        "constructor x call spellings x asymmetric widths 0..n (and beyond the length of the dimension) x shapes and dim orders on 1-3 axis grids; "
         "non-trivial = distinct (event, spelling kinds, rule in force per axis) classes"
         ' Also: NaN among the original values, arrays shorter / longer than the dataset along a padded dimension, numpy-scalar fill values, earlier padding calls with other per-call choices on the same Grid.')
 
@@ -104,7 +104,9 @@ def gen_pad(rng, cid, nmax=4):
         widths = []
         for ax in padded:
             L = next(s for d, s in dims_shape if d in [dd for _, dd in ax["pos"]])
-            widths.append([ax["name"], rng.randint(0, min(L, 3)), rng.randint(0, min(L, 3))])
+            # widths may exceed the length of the dimension (a periodic halo then wraps around more than once)
+            wmax = L + 2 if rng.random() < 0.25 else min(L, 3)
+            widths.append([ax["name"], rng.randint(0, wmax), rng.randint(0, wmax)])
         size = 1
         for (d, s) in dims_shape:
             w = next((w for w in widths if d in [dd for _, dd in next(a for a in axes if a["name"] == w[0])["pos"]]), None)
